@@ -503,3 +503,102 @@ theorem scanUnquotedB_sim (dia : Dialect) (mf L0 : Nat) : ∀ (fuel : Nat) (s : 
           (by rw [hs.2.1, hs.2.2.2.2.2.2.2.1, hL])
         rw [hs.2.2.2.2.2.2.2.1, hs.2.2.2.1, hs.2.2.2.2.1, hrc] at this
         exact this
+
+/-! ### scan_triple_delim_string -/
+
+theorem handleEolB_eq (s : BS) (c : CU) (sol : Nat) :
+    handleEolB s c sol = L.bind (handleEol s.line s.col sol c) (fun r => L.pure ({ s with line := r.1, col := r.2.1 }, r.2.2)) := rfl
+
+theorem L.bind_assoc {α β γ : Type} (m : L α) (f : α → L β) (g : β → L γ) :
+    L.bind (L.bind m f) g = L.bind m (fun x => L.bind (f x) g) := by
+  funext pol log; simp only [L.bind]; cases m pol log <;> rfl
+
+theorem scanTripleB_sim (dia : Dialect) (mf L0 : Nat) (delim : CU) : ∀ (fuel : Nat) (s : BS) (top : Nat) (lead : Bool) (dc sol : Nat),
+    Good mf s → top = s.sb.limit → s.sb.tvalueOffset = 0 → 3 ≤ s.text.length → (lead = true → 3 < s.text.length) →
+    s.measure < fuel → s.text.length + s.remaining.length = L0 →
+    Sim (Out mf L0) (scanTripleB dia mf delim fuel s top lead dc sol)
+      (scanTriple dia delim s.remaining s.line s.col lead (racc 3 s) dc sol) := by
+  intro fuel
+  induction fuel with
+  | zero => intro s top lead dc sol g ht h0 h3 hl hm hL; omega
+  | succ fuel ih =>
+    intro s top lead dc sol g ht h0 h3 hl hm hL
+    subst ht
+    unfold scanTripleB
+    by_cases hlt : s.sb.next < s.sb.limit
+    · rw [if_pos hlt, remaining_cons mf s g hlt]
+      simp only [scanTriple, bind_eq, pure_eq]
+      apply scanU_sim mf dia s lead 3 g hlt h3 hl
+      intro u a hr
+      have hrem : (s.remaining).tail = (stepU dia s u).remaining := by rw [a.rem]; rfl
+      have hgo : ∀ l' c' dc' sol', Sim (Out mf L0)
+          (scanTripleB dia mf delim fuel { stepU dia s u with line := l', col := c' } s.sb.limit u.lead dc' sol')
+          (scanTriple dia delim (s.remaining).tail l' c' u.lead (u.c :: fixAcc dia u.fixPrev (racc 3 s)) dc' sol') := by
+        intro l' c' dc' sol'
+        have a' : Adv mf dia s { stepU dia s u with line := l', col := c' } u.fixPrev u.c := a.congr rfl rfl rfl
+        have hr' : racc 3 { stepU dia s u with line := l', col := c' } = u.c :: fixAcc dia u.fixPrev (racc 3 s) := hr
+        have hrem' : (s.remaining).tail = ({ stepU dia s u with line := l', col := c' } : BS).remaining := hrem
+        have := ih { stepU dia s u with line := l', col := c' } s.sb.limit u.lead dc' sol' a'.good a'.limit.symm (by rw [a'.tvoff, h0])
+          (by rw [a'.tlen g]; omega) (fun _ => by rw [a'.tlen g]; omega) (by have := a'.measure; omega) (by rw [a'.sum g, hL])
+        rw [hr', ← hrem'] at this
+        exact this
+      by_cases hd : u.c = delim
+      · simp only [hd, if_true]
+        by_cases h3' : dc + 1 ≥ 3
+        · simp only [h3', if_true]
+          apply sim_pure
+          have o := out_endDelim mf L0 (stepU dia s u) 3 3 a.good (by rw [a.tvoff, h0]) (by rw [a.tlen g]; omega) (by rw [a.sum g, hL])
+          rw [hr, ← hrem, stepU_col, stepU_line, hd] at o
+          exact o
+        · simp only [h3', if_false]
+          have := hgo s.line u.col (dc + 1) sol
+          rw [hd] at this
+          rw [← stepU_line dia s u, ← stepU_col dia s u]
+          rw [← stepU_line dia s u, ← stepU_col dia s u] at this
+          exact this
+      · simp only [hd, if_false]
+        by_cases he : classOf dia u.c = .eol
+        · simp only [he, if_true]
+          rw [handleEolB_eq, L.bind_assoc]
+          show Sim _ (L.bind (handleEol (stepU dia s u).line ((stepU dia s u).col - 1) sol u.c) _) _
+          rw [stepU_line, stepU_col]
+          apply sim_bind_same
+          intro x
+          obtain ⟨l', c', s'⟩ := x
+          simp only [L.pure_bind]
+          exact hgo l' c' 0 s'
+        · simp only [he, if_false]
+          have := hgo s.line u.col 0 0
+          rw [← stepU_line dia s u, ← stepU_col dia s u]
+          rw [← stepU_line dia s u, ← stepU_col dia s u] at this
+          exact this
+    · rw [if_neg hlt]
+      have hnl : s.sb.next = s.sb.limit := by have := g.inv.2.2.1; omega
+      have hs := getMore_spec mf s g hnl
+      have hrc : racc 3 (getMore mf s).2 = racc 3 s := by unfold racc; rw [hs.2.1]
+      show Sim _ (if (getMore mf s).1 = true then _ else _) _
+      cases hb : (getMore mf s).1
+      · rw [if_neg (by simp)]
+        have hr := (hs.2.2.2.2.2.2.2.2.1 hb).1
+        rw [hr]
+        simp only [scanTriple, bind_eq, pure_eq]
+        have hu := unpairedLeadB_sim mf dia (getMore mf s).2 lead 3 hs.1 (by rw [hs.2.1]; exact h3) (by rw [hs.2.1]; exact hl)
+        rw [hrc, hs.2.2.2.1, hs.2.2.2.2.1] at hu
+        apply sim_bind hu
+        intro s' acc' ⟨g', e1, e2, e3, e4, e5, e6⟩
+        rw [e3, e4]
+        apply sim_bind_same
+        intro _
+        apply sim_pure
+        have o := out_endDelim mf L0 s' 3 0 g' (by rw [e5, hs.2.2.1, h0]) (by rw [e6, hs.2.1]; exact h3)
+          (by rw [e6, e2, hs.2.1, hs.2.2.2.2.2.2.2.1, hL])
+        subst e1
+        rw [e2.trans (hs.2.2.2.2.2.2.2.1.trans hr), e3, e4] at o
+        exact o
+      · rw [if_pos rfl]
+        have := ih (getMore mf s).2 (getMore mf s).2.sb.limit lead dc sol hs.1 rfl (by rw [hs.2.2.1, h0]) (by rw [hs.2.1]; exact h3)
+          (by rw [hs.2.1]; exact hl)
+          (by simp only [BS.measure, hs.2.2.2.2.2.2.2.1] at hm ⊢; have := (hs.2.2.2.2.2.2.2.2.2 hb).2; omega)
+          (by rw [hs.2.1, hs.2.2.2.2.2.2.2.1, hL])
+        rw [hs.2.2.2.2.2.2.2.1, hs.2.2.2.1, hs.2.2.2.2.1, hrc] at this
+        exact this
